@@ -6,12 +6,15 @@ from common import cq
 from props._cfg_common import TRUSTED, ASSUMPTIONS, TECHNIQUE
 
 PROP = "C10"
-LEVEL = "other"
-THEOREMS = {"Properties.C10": ["C10_reverse"]}
-LEVEL_TEXT = ("Partial proof + correspondence: reverse is proved for all grammars; substitute and the four template constructions are mirrored in the "
-              "model with tagged (disjoint) variables. Every grammar pyformlang returns is compared, on all words up to a bound and with the certified "
-              "membership oracle, with (a) the set-theoretic definition computed from the operands' memberships and (b) the model's construction.")
-LEVEL_NOTE = "Trusted: Coq kernel; hand-written model validated by correspondence; Python harness. Bounded language agreement is testing, not proof."
+LEVEL = "proof"
+THEOREMS = {"Properties.C10": ["C10_reverse", "C10_substitute", "C10_union", "C10_concatenate", "C10_closure", "C10_positive_closure"]}
+LEVEL_TEXT = ("Proof + correspondence: for the mirrored models (substitute with tagged, hence disjoint, variables; the four template grammars pushed "
+              "through it; reverse) Coq theorems show, for all grammars, all ordered pairs (shared variable names or the same grammar twice included) and "
+              "all words, that the language is exactly the substituted language, L1 u L2, L1 L2, L*, L+ and the mirror image. Every grammar pyformlang "
+              "returns is compared, on all words up to a bound and with the certified membership oracle, with (a) the set-theoretic definition computed "
+              "from the operands' memberships and (b) the model's construction.")
+LEVEL_NOTE = ("Trusted: Coq kernel; hand-written model validated by correspondence (pyformlang renames variables with #SUBS#i suffixes, the model tags "
+              "them; the tie between the two is bounded language agreement, which is testing); Python harness.")
 RULE = ("random grammars and ordered pairs sharing variable names (S, A, ...), the same object as both operands, empty and epsilon-only languages, "
         "reserved names x {union, concatenate, get_closure, get_positive_closure, reverse, substitute and | + ~}; words up to length 4 (3 for 3 terminals)")
 EXPLANATION = "Reference semantics on words (certified membership) + mirrored substitute model, compared with the grammars pyformlang returns."
